@@ -7,7 +7,7 @@ use rosu_pp::{
 
 use crate::{
     common::{guarded, mode_of, Run},
-    grad::{cases, note_prepared, prepare, taiko_class, Prepared},
+    grad::{cases, note_prepared, prepare, Prepared},
     rng::Rng,
 };
 
@@ -54,7 +54,6 @@ fn only_mania_combo_differs(a: &PerformanceAttributes, b: &PerformanceAttributes
 
 fn check_history(run: &mut Run, id: &str, p: &Prepared, ops: &[(POp, ScoreState)]) {
     let gm = mode_of(p.mode);
-    let tclass = taiko_class(p);
     let g = guarded(|| GradualPerformance::new_with_mode(p.difficulty.clone(), &p.map, gm));
     let Ok(Ok(mut g)) = g else {
         run.fail("oracle:gradual-performance-new", "", id, String::new(), p.repro());
@@ -68,7 +67,7 @@ fn check_history(run: &mut Run, id: &str, p: &Prepared, ops: &[(POp, ScoreState)
             POp::Len => {
                 let l = guarded(|| g.len());
                 if !matches!(l, Ok(l) if l == remaining) {
-                    run.fail("oracle:perf-len", tclass, id, format!("op {k}: len {l:?}, expected {remaining}"), p.repro());
+                    run.fail("oracle:perf-len", "", id, format!("op {k}: len {l:?}, expected {remaining}"), p.repro());
                     return;
                 }
             }
@@ -86,31 +85,28 @@ fn check_history(run: &mut Run, id: &str, p: &Prepared, ops: &[(POp, ScoreState)
                 let r = match r {
                     Ok(r) => r,
                     Err(e) => {
-                        run.fail("oracle:perf-panic", tclass, id, format!("op {k} {op:?}: {e}"), p.repro());
+                        run.fail("oracle:perf-panic", "", id, format!("op {k} {op:?}: {e}"), p.repro());
                         return;
                     }
                 };
                 let step = n.saturating_add(1).min(remaining);
                 if remaining == 0 {
                     if r.is_some() {
-                        run.fail("oracle:perf-some-after-end", tclass, id, format!("op {k} {op:?}"), p.repro());
+                        run.fail("oracle:perf-some-after-end", "", id, format!("op {k} {op:?}"), p.repro());
                         return;
                     }
                     continue;
                 }
                 i += step;
                 let Some(got) = r else {
-                    run.fail("oracle:perf-none-with-remaining", tclass, id, format!("op {k} {op:?} remaining {remaining}"), p.repro());
+                    run.fail("oracle:perf-none-with-remaining", "", id, format!("op {k} {op:?} remaining {remaining}"), p.repro());
                     return;
                 };
                 match one_shot_perf(p, i, st) {
                     Ok(exp) => {
                         if format!("{got:?}") != format!("{exp:?}") {
-                            let cls = if !tclass.is_empty() {
-                                tclass
-                            } else {
-                                ""
-                            };
+                            // (the former class taiko-gradual-first-two-objects is fixed in /repo)
+                            let cls = "";
                             run.fail(
                                 "oracle:gradual-perf-ne-oneshot",
                                 cls,
@@ -138,7 +134,6 @@ fn check_history(run: &mut Run, id: &str, p: &Prepared, ops: &[(POp, ScoreState)
 /// pre-set limit truncates the gradual calculators is outside the property's quantifier.)
 fn check_preset_limit(run: &mut Run, id: &str, p: &Prepared, k: u32) {
     let gm = mode_of(p.mode);
-    let tclass = taiko_class(p);
     let d = p.difficulty.clone().passed_objects(k);
     let Ok(Ok(mut g)) = guarded(|| GradualPerformance::new_with_mode(d.clone(), &p.map, gm)) else {
         run.fail("oracle:gradual-performance-new", "", id, format!("preset passed_objects({k})"), p.repro());
@@ -148,7 +143,7 @@ fn check_preset_limit(run: &mut Run, id: &str, p: &Prepared, k: u32) {
     for i in 1..=p.units {
         let st = ScoreState { max_combo: i as u32, n300: i as u32, ..Default::default() };
         let Ok(r) = guarded(|| g.next(st.clone())) else {
-            run.fail("oracle:perf-panic", tclass, id, format!("preset passed_objects({k}), step {i}"), p.repro());
+            run.fail("oracle:perf-panic", "", id, format!("preset passed_objects({k}), step {i}"), p.repro());
             return;
         };
         let Some(got) = r else { return };
@@ -160,7 +155,7 @@ fn check_preset_limit(run: &mut Run, id: &str, p: &Prepared, k: u32) {
             Ok(exp) => {
                 run.fail(
                     "oracle:gradual-perf-ne-oneshot-preset-limit",
-                    tclass,
+                    "",
                     id,
                     format!("Difficulty carries passed_objects({k}); value {i}\ngradual {got:?}\none-shot {exp:?}"),
                     p.repro(),
